@@ -59,7 +59,10 @@ def _batcher(draw):
         ts = sorted({c['at'] for c in calls})
         gc_at = sorted({t + draw(st.sampled_from([cfg['bt'] + bdur + U, cfg['bt'] + bdur + cfg['ret'] / 2, 2 * U]))
                         for t in draw(st.lists(st.sampled_from(ts), min_size=1, max_size=2))})
-    return {'kind': 'batcher', 'cfg': cfg, 'calls': calls, 'behave': {}, 'order': 'fwd', 'bdur': bdur, 'idur': 0,
+    keys = sorted({c['key'] if c['key'] is not None else c['name'] for c in calls})
+    # some keys end with a yielded Exception: retention and sharing apply to failed requests as to successful ones
+    behave = {k: 'exc' for k in keys if draw(st.integers(0, 4)) == 0}
+    return {'kind': 'batcher', 'cfg': cfg, 'calls': calls, 'behave': behave, 'order': 'fwd', 'bdur': bdur, 'idur': 0,
             'mutate': None, 'fresh': 0, 'unique': unique, 'gc_at': gc_at}
 
 
